@@ -1,9 +1,13 @@
 """C03 — basis decomposition (QubitCircuit.resolve_gates).
 
 T: the `_gate_*` / `_basis_*` rule tables are regenerated from /repo on every run
-(py/translate/decomp.py) into lean/QipVerif/Gen/DecompTables.lean + one module per rule whose
-exact soundness theorem is re-checked by the kernel.
-H: the control flow of resolve_gates (Model/Decompose.lean) is run side by side with the code."""
+(py/translate/decomp.py) into lean/QipVerif/Gen/DecompTables.lean (names, qubit selectors, angles) and
+Gen/DecompLabels.lean (arg_label; every other field of an emitted object must be the plain default) + one module per
+rule whose exact soundness theorem is re-checked by the kernel.
+H: the control flow of resolve_gates (Model/Decompose.lean, with every field of the emitted gate objects:
+Model/DecomposeF.lean) is run side by side with the code; EVERY attribute of every emitted gate object is compared.
+Variants of the source (fixes/C03-2: classical condition handed on; fixes/C03-3: a string basis is one name) are read
+from the tree by probing each stage (source_variant)."""
 import itertools, math, time
 import numpy as np
 
@@ -37,12 +41,63 @@ def other_bases():
             ("list", []), ("list", ["FOO", "CNOT"]), ("list", ["T", "CNOT", "RX", "RY"])]
 
 
-class G:
-    """A gate of the harness: name, targets, controls, angle = symbolic value or fixed multiple of pi/8."""
-    __slots__ = ("name", "t", "c", "sym", "p8", "val")
+USER_GATES = ["MYG", "NOT"]          # names of user-defined one-qubit gates (`NOT` is a substring of `CNOT`)
 
-    def __init__(self, name, t, c, sym=None, p8=0, val=None):
+
+def label_text(lab):
+    """harness label -> the text given to the library: None | ("u", id) -> "L<id>" | ("f", k, m) -> k\\pi/m"""
+    if lab is None:
+        return None
+    if lab[0] == "u":
+        return "L%d" % lab[1]
+    _, k, m = lab
+    return ("-" if k < 0 else "") + (str(abs(k)) if abs(k) != 1 else "") + "\\pi" + ("/%d" % m if m != 1 else "")
+
+
+def label_of_text(txt):
+    if txt is None:
+        return None
+    if isinstance(txt, str) and txt[:1] == "L" and txt[1:].isdigit():
+        return ("u", int(txt[1:]))
+    f = decomp.parse_label(txt)
+    if f is not None and label_text(("f",) + f) == txt:
+        return ("f",) + f
+    return ("?", txt)
+
+
+class G:
+    """A gate of the harness: name, targets, controls, angle = symbolic value or fixed multiple of pi/8; optional
+    label (("u", id) | ("f", k, m)), classical condition (bits, value), style (any dict); `meas`: a measurement."""
+    __slots__ = ("name", "t", "c", "sym", "p8", "val", "lab", "cond", "style", "meas")
+
+    def __init__(self, name, t, c, sym=None, p8=0, val=None, lab=None, cond=None, style=None, meas=False):
         self.name, self.t, self.c, self.sym, self.p8, self.val = name, list(t), list(c), sym, p8, val
+        self.lab, self.cond, self.style, self.meas = lab, cond, style, meas
+
+    def enc_item(self):
+        if self.meas:
+            return "M"
+        d = lambda l: ".".join(map(str, l)) if l else "-"
+        lab = "n" if self.lab is None else ("u%d" % self.lab[1] if self.lab[0] == "u" else "f%d_%d" % self.lab[1:])
+        cond = "n" if self.cond is None else "%s:%d" % (d(self.cond[0]), self.cond[1])
+        return f"{self.enc()}/{lab}/{cond}"
+
+    def extra(self):
+        e = {}
+        if self.lab is not None:
+            e["label"] = label_text(self.lab)
+        if self.cond is not None:
+            e["cond"] = [list(self.cond[0]), self.cond[1]]
+        if self.style is not None:
+            e["style"] = self.style
+        return e
+
+    def wit(self):
+        """entry of a witness"""
+        if self.meas:
+            return ["M", self.t, [], None]
+        e = self.extra()
+        return [self.name, self.t, self.c, self.value()] + ([e] if e else [])
 
     def enc(self):
         d = lambda l: ".".join(map(str, l)) if l else "-"
@@ -58,12 +113,36 @@ class G:
         return self.val if self.sym is not None else self.p8 * PI8
 
     def js(self):
-        return [self.name, self.t, self.c, ("sym%d" % self.sym) if self.sym is not None else self.p8]
+        if self.meas:
+            return ["M", self.t]
+        e = self.extra()
+        return [self.name, self.t, self.c, ("sym%d" % self.sym) if self.sym is not None else self.p8] + ([e] if e else [])
+
+
+def shape(name):
+    return decomp.SHAPE[name] if name in decomp.SHAPE else (0, 1)
+
+
+def decorate(rng, g, idx, ncb, p_cond=0.3):
+    """random label / classical condition / style on a harness gate"""
+    if rng.random() < 0.4:
+        if g.sym is None and g.name in PARAM and rng.random() < 0.5:
+            from fractions import Fraction
+            fr = Fraction(g.p8, 8)
+            g.lab = ("f", fr.numerator, fr.denominator)          # a true label k\pi/m
+        else:
+            g.lab = ("u", idx)
+    if ncb and rng.random() < p_cond:
+        bits = rng.sample(range(ncb), rng.randint(1, ncb))
+        g.cond = (bits, rng.randrange(2 ** len(bits)))
+    if rng.random() < 0.15:
+        g.style = {"tag": idx}
+    return g
 
 
 def random_gate(rng, N, names, idx):
     name = rng.choice(names)
-    nc, nt = decomp.SHAPE[name]
+    nc, nt = shape(name)
     if nc + nt > N:
         return None
     qs = rng.sample(range(N), nc + nt)
@@ -75,19 +154,35 @@ def random_gate(rng, N, names, idx):
     return G(name, t, c)
 
 
-def build_circuit(N, gates):
+def _user_not():
+    import qutip
+    return qutip.sigmax()
+
+
+def build_circuit(N, gates, ncb=0):
     from qutip_qip.circuit import QubitCircuit
-    qc = QubitCircuit(N)
+    users = {g.name: _user_not for g in gates if g.name in USER_GATES}
+    qc = QubitCircuit(N, num_cbits=ncb, user_gates=users or None) if (ncb or users) else QubitCircuit(N)
     for g in gates:
+        if getattr(g, "meas", False):
+            qc.add_measurement("M", targets=list(g.t), classical_store=0)
+            continue
         kw = {}
         if g.value() is not None:
             kw["arg_value"] = g.value()
+        if getattr(g, "lab", None) is not None:
+            kw["arg_label"] = label_text(g.lab)
+        if getattr(g, "cond", None) is not None:
+            kw["classical_controls"] = list(g.cond[0])
+            kw["classical_control_value"] = g.cond[1]
+        if getattr(g, "style", None) is not None:
+            kw["style"] = dict(g.style)
         qc.add_gate(g.name, targets=(g.t or None), controls=(g.c or None), **kw)
     return qc
 
 
-def impl_resolve(N, gates, basis):
-    qc = build_circuit(N, gates)
+def impl_resolve(N, gates, basis, ncb=0):
+    qc = build_circuit(N, gates, ncb)
     b = basis[1] if basis[0] == "str" else list(basis[1])
     try:
         r = qc.resolve_gates(b)
@@ -98,7 +193,9 @@ def impl_resolve(N, gates, basis):
         if "not a valid two-qubit basis" in m:
             return "err invalid2q", None, qc
         return "err other:ValueError", None, qc
-    except NotImplementedError:
+    except NotImplementedError as e:
+        if "measurements" in str(e):
+            return "err measurement", None, qc
         return "err cannotResolve", None, qc
     except (IndexError, TypeError):
         return "err index", None, qc
@@ -154,6 +251,193 @@ def allowed_names(b):
     if not b1:
         b1 = list(R1)
     return set(b2) | set(b1) | {"GLOBALPHASE", "IDLE"}
+
+
+# ------------------------------------------------------------------------------------------
+# every field of the emitted gate objects
+
+def parse_model_f(ans, symvals):
+    """answer of `resolvef` -> ("ok", [dict(name, t, c, val, lab, cond, src)]) | (verdict, None)"""
+    if not ans.startswith("ok"):
+        return ans, None
+    body = ans[3:].strip()
+    out = []
+    nat = lambda x: [] if x == "-" else [int(v) for v in x.split(".")]
+    if body and body != "-":
+        for s in body.split(";"):
+            n, t, c, a, l, k, src = s.split("/")
+            sy, cn, cd, p8 = (int(v) for v in a.split(","))
+            val = p8 * PI8 + ((cn / cd) * symvals[sy] if sy >= 0 and cn != 0 else 0.0)
+            lab = None if l == "n" else (("u", int(l[1:])) if l[0] == "u" else ("f",) + tuple(int(v) for v in l[1:].split("_")))
+            cond = None if k == "n" else (nat(k.split(":")[0]), int(k.split(":")[1]))
+            out.append({"name": n, "t": nat(t), "c": nat(c), "val": val, "lab": lab, "cond": cond,
+                        "src": None if src == "n" else int(src)})
+    return "ok", out
+
+
+def attrs(g):
+    """every attribute of a gate object, canonical"""
+    d = dict(vars(g))
+    d["__class__"] = type(g).__name__
+    return d
+
+
+def field_mismatch(m, o, inputs):
+    """model gate `m` (dict) against the emitted object `o`; `inputs` = gate objects of the input circuit.
+    -> None | description of the first field that differs"""
+    from qutip_qip.operations import Gate
+    if m["src"] is not None:
+        a, b = attrs(inputs[m["src"]]), attrs(o)
+        if a != b:
+            ks = sorted(k for k in set(a) | set(b) if a.get(k, "<absent>") != b.get(k, "<absent>"))
+            return (f"{o.name}: passed-through input gate {m['src']} differs in {ks}: "
+                    f"{[a.get(k, '<absent>') for k in ks]} -> {[b.get(k, '<absent>') for k in ks]}")
+        return None
+    if type(o) is not Gate:
+        return f"{o.name}: a gate built by resolve_gates has class {type(o).__name__}"
+    unknown = set(vars(o)) - decomp.KNOWN_ATTRS
+    if unknown:
+        return f"{o.name}: unknown attributes {sorted(unknown)}"
+    if o.name != m["name"] or aslist(o.targets) != m["t"] or aslist(o.controls) != m["c"]:
+        return f"{o.name}{aslist(o.targets)}{aslist(o.controls)}: expected {m['name']}{m['t']}{m['c']}"
+    if (o.targets is not None and not isinstance(o.targets, list)) or \
+            (o.controls is not None and not isinstance(o.controls, list)):
+        return f"{o.name}: targets/controls not lists"
+    iv = o.arg_value
+    if m["name"] in PARAM:
+        if not isinstance(iv, (int, float)) or abs(iv - m["val"]) > 1e-12 * max(1.0, abs(m["val"])):
+            return f"{o.name}{aslist(o.targets)}: arg_value {iv!r}, expected {m['val']!r}"
+    elif iv not in (None, 0, 0.0):
+        return f"{o.name}: arg_value {iv!r}"
+    if label_of_text(o.arg_label) != m["lab"]:
+        return f"{o.name}{aslist(o.targets)}: arg_label {o.arg_label!r}, expected {label_text(m['lab'])!r}"
+    cc = None if o.classical_controls is None else (list(o.classical_controls), o.classical_control_value)
+    if o.classical_controls is None and o.classical_control_value is not None:
+        return f"{o.name}: classical_control_value {o.classical_control_value!r} without classical_controls"
+    if cc != m["cond"]:
+        return (f"{o.name}{aslist(o.targets)}: classical condition {cc!r}, expected {m['cond']!r}")
+    for k, v in decomp.PLAIN_FIELDS.items():
+        if k in ("classical_controls", "classical_control_value"):
+            continue
+        if getattr(o, k) != v:
+            return f"{o.name}{aslist(o.targets)}: {k}={getattr(o, k)!r}"
+    return None
+
+
+LABEL_TRUE_EXEMPT = "GLOBALPHASE"      # the marker of _gate_PHASEGATE carries the label of twice its angle (notes/C03.md)
+
+
+def label_defect(g):
+    """a label k\\pi/m must be the angle it labels -> None | description"""
+    f = decomp.parse_label(g.arg_label) if isinstance(g.arg_label, str) else None
+    if f is not None and isinstance(g.arg_value, (int, float)):
+        if abs(f[0] * math.pi / f[1] - g.arg_value) > 1e-9:
+            return f"{g.name}{aslist(g.targets)}: label {g.arg_label!r} on the angle {g.arg_value!r}"
+    return None
+
+
+def object_defect(g):
+    """fields of an emitted object that must hold whatever the input: control_value None or all-ones, label a string"""
+    cs = aslist(g.controls)
+    if g.control_value is not None and (not cs or g.control_value != 2 ** len(cs) - 1):
+        return f"{g.name}{aslist(g.targets)}: control_value={g.control_value!r}"
+    if g.arg_label is not None and not isinstance(g.arg_label, str):
+        return f"{g.name}{aslist(g.targets)}: arg_label={g.arg_label!r}"
+    if (g.classical_controls is None) != (g.classical_control_value is None):
+        return f"{g.name}{aslist(g.targets)}: classical condition {g.classical_controls!r}/{g.classical_control_value!r}"
+    return None
+
+
+# ------------------------------------------------------------------------------------------
+# T: which variant of the source is in the tree (one probe per stage of resolve_gates)
+
+def source_variant():
+    """-> (keepCond, exactStr).  keepCond: every gate emitted for a classically controlled gate carries its
+    condition (fixes/C03-2); all stages must agree, otherwise TranslatorError.  exactStr: a string basis is one
+    name (fixes/C03-3)."""
+    from qutip_qip.circuit import QubitCircuit
+    stages = [("Pauli substitution", "X", {"targets": 0}, "CNOT"),
+              ("_resolve_to_universal", "SNOT", {"targets": 0}, "CNOT"),
+              ("_resolve_to_universal (3-qubit rule)", "TOFFOLI", {"targets": 2, "controls": [0, 1]}, "CNOT"),
+              ("_resolve_2q_basis", "CNOT", {"targets": 0, "controls": 1}, "SQRTISWAP"),
+              ("rotation elimination", "RZ", {"targets": 0, "arg_value": 0.25}, ["CNOT", "RX", "RY"])]
+    kept = []
+    for what, name, kw, basis in stages:
+        qc = QubitCircuit(3, num_cbits=2)
+        qc.add_gate(name, classical_controls=[1, 0], classical_control_value=2, **kw)
+        try:
+            r = qc.resolve_gates(basis)
+        except Exception as e:
+            raise TranslatorError(f"variant probe {what}: {type(e).__name__}: {e}")
+        flags = [(g.classical_controls, g.classical_control_value) == ([1, 0], 2) for g in r.gates]
+        none = [g.classical_controls is None and g.classical_control_value is None for g in r.gates]
+        if flags and all(flags):
+            kept.append((what, True))
+        elif none and all(none):
+            kept.append((what, False))
+        else:
+            raise TranslatorError(f"{what}: the classical condition is handed to {sum(flags)} of {len(flags)} emitted gates")
+    if len({k for _, k in kept}) != 1:
+        raise TranslatorError("the stages of resolve_gates treat the classical condition differently: "
+                              + ", ".join(f"{w}: {'kept' if k else 'dropped'}" for w, k in kept))
+    qc = QubitCircuit(1)
+    qc.add_gate("S", targets=0)
+    try:
+        qc.resolve_gates("CSIGN")
+        exact = False
+    except NotImplementedError:
+        exact = True
+    except Exception as e:
+        raise TranslatorError(f"variant probe string basis: {type(e).__name__}: {e}")
+    return kept[0][1], exact
+
+
+_VAR = {"v": None}
+
+
+def variant():
+    """(keepCond, exactStr) in use; an unrecognised source is held to the repaired reading"""
+    if _VAR["v"] is None:
+        try:
+            _VAR["v"] = source_variant()
+        except TranslatorError:
+            _VAR["v"] = (True, True)
+    return _VAR["v"]
+
+
+def gates_of_witness(w):
+    gs = []
+    for i, e in enumerate(w["gates"]):
+        n, t, c, v = e[:4]
+        x = e[4] if len(e) > 4 else {}
+        if n == "M":
+            gs.append(G("M", t, [], meas=True))
+            continue
+        g = G(n, t, c, sym=(i if v is not None else None), val=v)
+        if x.get("label") is not None:
+            g.lab = label_of_text(x["label"])
+        if x.get("cond") is not None:
+            g.cond = (list(x["cond"][0]), x["cond"][1])
+        g.style = x.get("style")
+        gs.append(g)
+    return gs
+
+
+def num_cbits(gs):
+    m = [b for g in gs if getattr(g, "cond", None) for b in g.cond[0]]
+    return max(m) + 1 if m else 0
+
+
+def unitary_under(qc, N, cbits):
+    """the operator the SIMULATOR applies for the given classical bits: columns = images of the basis states"""
+    import qutip
+    cols = []
+    for k in range(2 ** N):
+        bits = [(k >> (N - 1 - j)) & 1 for j in range(N)]
+        st = qutip.basis([2] * N, bits)
+        out = qc.run(st, cbits=list(cbits))
+        cols.append(out.full().reshape(-1))
+    return np.array(cols).T
 
 
 class C03(PropertyCheck):
@@ -215,70 +499,137 @@ class C03(PropertyCheck):
         import os
         from vlib.paths import LEAN
         decomp.write_if_changed(os.path.join(LEAN, "QipVerif", "Gen", "DecompRulesAll.lean"), agg)
-        return ["DecompTables.lean"] + mods
+        _VAR["v"] = None
+        try:
+            _VAR["v"] = source_variant()
+        except TranslatorError:
+            _VAR["v"] = (True, True)             # held to the repaired reading; the comparison then shows where
+            raise
+        finally:
+            kc, ex = _VAR["v"]
+            ctx.log("source shape: a rebuilt gate %s the classical condition of the gate it replaces (fixes/C03-2 %s); "
+                    "a string basis is %s (fixes/C03-3 %s)"
+                    % ((("keeps", "applied") if kc else ("drops", "not applied"))
+                       + (("one name", "applied") if ex else ("searched for substrings", "not applied"))))
+        return ["DecompTables.lean", "DecompLabels.lean"] + mods
 
     # ---------------------------------------------------------------------------------
-    def _run_cases(self, ctx, res, cases):
-        lines = [f"resolve keep=1 basis={basis_enc(b)} gates={';'.join(g.enc() for g in gs) if gs else '-'}"
-                 for (N, gs, b) in cases]
+    def _run_cases(self, ctx, res, cases, stream="main"):
+        kc, ex = variant()
+        v = "1%d%d" % (kc, ex)
+        lines = []
+        for (N, gs, b) in cases:
+            lines.append(f"resolvef v={v} basis={basis_enc(b)} items={';'.join(g.enc_item() for g in gs) if gs else '-'}")
         outs = ctx.driver("drv_decomp").run(lines)
         for (N, gs, b), o in zip(cases, outs):
             symvals = {g.sym: g.val for g in gs if g.sym is not None}
-            st, mg = parse_model(o, symvals)
-            ist, r, qc = impl_resolve(N, gs, b)
+            st, mg = parse_model_f(o, symvals)
+            ncb = num_cbits(gs)
+            ist, r, qc = impl_resolve(N, gs, b, ncb)
             inp = {"N": N, "gates": [g.js() for g in gs], "basis": list(b)}
-            rewritten = st != "ok" or len(mg) != len(gs)
-            res.case(inp, nontrivial=rewritten, tags=[f"basis={b[0]}", f"verdict={st.split(':')[0]}", f"len={min(len(gs), 6)}"])
-            w = {"N": N, "gates": [[g.name, g.t, g.c, g.value()] for g in gs], "basis": list(b)}
+            rewritten = st != "ok" or len(mg) != len(gs) or any(m["src"] is None for m in mg)
+            res.case(inp, nontrivial=rewritten,
+                     tags=[f"basis={b[0]}", f"verdict={st.split(':')[0]}", f"len={min(len(gs), 6)}", f"stream={stream}",
+                           "cond=%d" % any(g.cond is not None for g in gs), "label=%d" % any(g.lab is not None for g in gs)])
+            w = {"N": N, "gates": [g.wit() for g in gs], "basis": list(b)}
             if st != ist:
                 res.disagree(inp, st, ist, "verdict of resolve_gates", w)
-            elif st == "ok" and not same_gates(mg, r.gates):
-                res.disagree(inp, [list(x) for x in mg],
-                             [[g.name, aslist(g.targets), aslist(g.controls), g.arg_value] for g in r.gates],
-                             "resolved gate list", w)
+                continue
+            if st != "ok":
+                continue
+            shown = [[g.name, aslist(g.targets), aslist(g.controls), g.arg_value, g.arg_label, g.classical_controls,
+                      g.classical_control_value, g.control_value] for g in r.gates]
+            if len(mg) != len(r.gates):
+                res.disagree(inp, mg, shown, "resolved gate list (length)", w)
+                continue
+            bad = None
+            for m, og in zip(mg, r.gates):
+                bad = field_mismatch(m, og, qc.gates)
+                if bad:
+                    break
+            if bad is None and (r.N != N or r.num_cbits != qc.num_cbits or r.reverse_states != qc.reverse_states):
+                bad = f"circuit fields N/num_cbits/reverse_states: {r.N}/{r.num_cbits}/{r.reverse_states}"
+            if bad is None and any(a is b_ for a in r.gates for b_ in qc.gates):
+                bad = "the result shares a gate object with the input circuit"
+            if bad:
+                res.disagree(inp, mg, shown, "resolved gate list: " + bad, w)
 
     def correspondence(self, ctx, res):
         rng = ctx.rng
+        kc, ex = variant()
         bases = valid_bases() + other_bases()
-        # exhaustive: every placed gate on 3 qubits x every basis specification
-        cases = []
+        # exhaustive: every placed gate on 3 qubits x every basis specification, plain and with a label + a
+        # classical condition + a style on the gate
+        cases, cases2 = [], []
         N = 3
         for name in RESOLVABLE + OTHERS:
             nc, nt = decomp.SHAPE[name]
-            for qs in itertools.permutations(range(N), nc + nt):
-                g = (G(name, qs[:nt], qs[nt:], sym=0, val=0.7390851332151607) if name in PARAM
-                     else G(name, qs[:nt], qs[nt:]))
+            for j, qs in enumerate(itertools.permutations(range(N), nc + nt)):
+                mk = lambda **kw: (G(name, qs[:nt], qs[nt:], sym=0, val=0.7390851332151607, **kw) if name in PARAM
+                                   else G(name, qs[:nt], qs[nt:], **kw))
+                cond = [([0], 1), ([1, 0], 2), ([0, 2], 0)][j % 3]
                 for b in bases:
-                    cases.append((N, [g], b))
-        self._run_cases(ctx, res, cases)
+                    cases.append((N, [mk()], b))
+                    cases2.append((N, [mk(lab=("u", 7), cond=cond, style=({"tag": 1} if j % 2 else None))], b))
+        self._run_cases(ctx, res, cases, "exhaustive")
+        self._run_cases(ctx, res, cases2, "exhaustive-fields")
         res.exhaustive = True
-        res.notes.append(f"exhaustive: every placement of every library gate on 3 qubits x {len(bases)} basis specifications "
-                         f"({len(cases)} cases); then seeded random sequences")
-        # random sequences
+        res.notes.append(f"exhaustive: every placement of every library gate on 3 qubits x {len(bases)} basis specifications, "
+                         f"plain and as a labelled, classically controlled gate ({len(cases) + len(cases2)} cases, every "
+                         "attribute of every emitted object compared); then seeded random sequences, measurements, user gates")
+        res.notes.append("source variant: classical condition %s, string basis %s"
+                         % ("kept (fixes/C03-2 applied)" if kc else "dropped on rebuilt gates (fixes/C03-2 not applied)",
+                            "one name (fixes/C03-3 applied)" if ex else "substring test (fixes/C03-3 not applied)"))
+        # random sequences with labels, conditions, styles
         n_rand = 4000 if ctx.thorough else 500
         cases = []
         for _ in range(n_rand):
             N = rng.randint(1, 5)
             L = rng.randint(0, 8)
+            ncb = rng.choice([0, 1, 2, 3])
             names = RESOLVABLE if rng.random() < 0.8 else RESOLVABLE + OTHERS
-            gs = [g for g in (random_gate(rng, N, names, i) for i in range(L)) if g is not None]
+            gs = [decorate(rng, g, i, ncb) for i, g in enumerate(random_gate(rng, N, names, i) for i in range(L))
+                  if g is not None]
             b = rng.choice(valid_bases()) if rng.random() < 0.85 else rng.choice(other_bases())
             cases.append((N, gs, b))
-        self._run_cases(ctx, res, cases)
+        self._run_cases(ctx, res, cases, "random")
+        # measurements: refused before anything else, whatever the basis
+        cases = []
+        for _ in range(300 if ctx.thorough else 60):
+            N = rng.randint(1, 4)
+            gs = [g for g in (random_gate(rng, N, RESOLVABLE, i) for i in range(rng.randint(0, 4))) if g is not None]
+            for _ in range(rng.randint(1, 2)):
+                gs.insert(rng.randint(0, len(gs)), G("M", [rng.randrange(N)], [], meas=True))
+            cases.append((N, gs, rng.choice(bases)))
+        self._run_cases(ctx, res, cases, "measurement")
+        # user-defined gates: passed through iff named in the basis
+        ubases = [("list", ["CNOT", "RX", "RY", "RZ", "MYG"]), ("list", ["NOT", "CSIGN", "RX", "RZ"]), ("str", "CNOT"),
+                  ("list", ["CNOT"]), ("str", "SQRTISWAP"), ("list", ["ISWAP", "RY", "RZ", "MYG", "NOT"])]
+        cases = []
+        for ub in ubases:
+            for un in USER_GATES:
+                for q in range(2):
+                    cases.append((2, [G(un, [q], [])], ub))
+                    cases.append((2, [G("SNOT", [1 - q], []), G(un, [q], [], lab=("u", 1), cond=([0], 1)),
+                                      G("CNOT", [q], [1 - q])], ub))
+        self._run_cases(ctx, res, cases, "user-gates")
 
     # ---------------------------------------------------------------------------------
     def oracle_replay(self, ctx, w):
-        gs = [G(n, t, c, sym=(0 if v is not None else None), val=v) for (n, t, c, v) in w["gates"]]
-        for i, g in enumerate(gs):
-            g.sym = i if g.val is not None else None
+        gs = gates_of_witness(w)
         b = tuple(w["basis"])
         b = (b[0], b[1] if b[0] == "str" else list(b[1]))
         N = w["N"]
-        ist, r, qc = impl_resolve(N, gs, b)
+        ncb = num_cbits(gs)
+        ist, r, qc = impl_resolve(N, gs, b, ncb)
         names = [b[1]] if b[0] == "str" else list(b[1])
         valid = (b in valid_bases())
         if not valid:
             return False, "basis specification outside the property's class"
+        if any(g.meas for g in gs):
+            if ist == "ok":
+                return True, "a circuit with a measurement was resolved (resolve_gates documents a refusal)"
+            return False, f"circuit with a measurement: {ist}"
         b2 = [n for n in names if n in B2]
         inexpressible = [g.name for g in gs if g.name not in RESOLVABLE or
                          (g.name in ("SQRTSWAP", "SQRTISWAP") and g.name not in b2)]
@@ -293,32 +644,75 @@ class C03(PropertyCheck):
         bad = [g.name for g in r.gates if g.name not in allowed_names(b)]
         if bad:
             return True, f"result contains gates outside the basis: {sorted(set(bad))}"
-        if N <= 6:
+        for g in r.gates:
+            d = object_defect(g)
+            if d:
+                return True, "emitted gate object: " + d
+        # labels: if every label of the input says its angle, so does every label of the result (the phase marker of a
+        # PHASEGATE is listed in notes/C03.md: it carries the label of the gate, at half the angle)
+        if all(label_defect(g) is None for g in qc.gates):
+            for g in r.gates:
+                d = label_defect(g)
+                if d and not (g.name == LABEL_TRUE_EXEMPT and any(x.name == "PHASEGATE" and x.arg_label == g.arg_label
+                                                                  for x in qc.gates)):
+                    return True, "emitted gate object: " + d
+        if N <= 6 and ncb == 0:
             U0 = qc.compute_unitary().full()
             U1 = r.compute_unitary().full()
             d = np.abs(U0 - U1).max()
             if d > 1e-9:
                 return True, f"unitary differs by {d:.3g} (global phase included)"
+        elif N <= 3 and ncb <= 3:
+            if r.num_cbits != qc.num_cbits:
+                return True, f"num_cbits {qc.num_cbits} -> {r.num_cbits}"
+            for cb in itertools.product((0, 1), repeat=ncb):
+                U0 = unitary_under(qc, N, cb)
+                U1 = unitary_under(r, N, cb)
+                d = np.abs(U0 - U1).max()
+                if d > 1e-9:
+                    return True, (f"for the classical bits {list(cb)} the resolved circuit applies an operator differing by "
+                                  f"{d:.3g} from the one the original applies (classically controlled gates)")
         return False, "same unitary, basis respected"
 
     def _rand_witness(self, rng):
+        kc, ex = variant()
         N = rng.randint(1, 4)
         L = rng.randint(1, 5)
         gs = [g for g in (random_gate(rng, N, RESOLVABLE, i) for i in range(L)) if g is not None]
+        if rng.random() < 0.35 and N <= 3:
+            # labels always; classical conditions while the source hands them on (otherwise: recorded class C03-2)
+            ncb = rng.choice([1, 2]) if kc else 0
+            gs = [decorate(rng, g, i, ncb, p_cond=0.6) for i, g in enumerate(gs)]
         b = rng.choice(valid_bases())
-        return {"N": N, "gates": [[g.name, g.t, g.c, g.value()] for g in gs], "basis": list(b)}
+        return {"N": N, "gates": [g.wit() for g in gs], "basis": list(b)}
 
-    def oracle_search(self, ctx, budget_s):
-        t0 = time.time()
+    def _systematic(self):
+        """single gates of every name x every valid basis: plain, classically controlled (if the source hands
+        conditions on), and the gates without a rule in string bases (if a string basis is one name)"""
+        kc, ex = variant()
         for name in RESOLVABLE:
             nc, nt = decomp.SHAPE[name]
             N = max(1, nc + nt)
             for b in valid_bases():
                 g = G(name, list(range(nt)), list(range(nt, nt + nc)), sym=0 if name in PARAM else None, val=0.739)
-                w = {"N": N, "gates": [[g.name, g.t, g.c, g.value()]], "basis": list(b)}
-                f, d = self.oracle_replay(ctx, w)
-                if f:
-                    yield w, d
+                yield {"N": N, "gates": [g.wit()], "basis": list(b)}
+                if kc:
+                    g.cond = ([0], 1)
+                    yield {"N": N, "gates": [g.wit()], "basis": list(b)}
+        for name in OTHERS:
+            nc, nt = decomp.SHAPE[name]
+            for b in valid_bases():
+                if b[0] == "str" and not ex:
+                    continue                    # recorded class C03-3
+                g = G(name, list(range(nt)), list(range(nt, nt + nc)), sym=0 if name in PARAM else None, val=0.739)
+                yield {"N": max(1, nc + nt), "gates": [g.wit()], "basis": list(b)}
+
+    def oracle_search(self, ctx, budget_s):
+        t0 = time.time()
+        for w in self._systematic():
+            f, d = self.oracle_replay(ctx, w)
+            if f:
+                yield w, d
             if time.time() - t0 > budget_s:
                 return
         while time.time() - t0 < budget_s:
@@ -328,6 +722,13 @@ class C03(PropertyCheck):
                 yield w, d
 
     def oracle_always(self, ctx):
+        ws = list(self._systematic())
+        if not ctx.thorough:
+            ws = ctx.rng.sample(ws, min(len(ws), 150))
+        for w in ws:
+            f, d = self.oracle_replay(ctx, w)
+            if f:
+                yield w, d
         for _ in range(120 if not ctx.thorough else 1500):
             w = self._rand_witness(ctx.rng)
             f, d = self.oracle_replay(ctx, w)
